@@ -13,7 +13,7 @@ def plan(ctx):
             dict(gen="g1", count=40 * k, modes=["plain", "spacetime"], nexec=0),
             dict(gen="g2", count=40 * k, modes=["plain", "spacetime"], nexec=0),
             dict(gen="g3", count=30 * k, modes=["plain", "spacetime"], nexec=0),
-            dict(gen="g3u", count=10 * k, modes=["plain", "spacetime"], nexec=0), dict(gen="g3v", count=8 * k, modes=["plain"], nexec=0),
+            dict(gen="g3u", count=10 * k, modes=["plain", "spacetime"], nexec=0), dict(gen="g3v", count=8 * k, modes=["plain"], nexec=0), dict(gen="g3dd", count=6 * k, modes=["plain"], nexec=0),
             dict(gen="g4", count=40 * k, modes=["plain", "spacetime"], nexec=0),
             dict(gen="g4b", count=40 * k, modes=["plain"], nexec=0),
             dict(gen="g5", count=20 * k, modes=["plain"], nexec=0),
